@@ -54,7 +54,10 @@ RULE = ("expr: exhaustive cross 35 dunders x operand kinds x length pairs x call
         "and attribute access raise; a Boom scalar = every position raises) x every dunder of the pool x (scalar operand on the side the dunder "
         "fixes | iterable operand raw / in a Stream | endless self | endless other | unary | map / abs / attribute / call) and random nested "
         "trees of depth <= 4 (thorough 5) with append / Stream(a, b); each read three ways: next() in try/except, a for loop restarted after "
-        "each exception, a random script of next() / take(k) in try/except; bcastE: the math/dB/MIDI functions on scalar / list / tuple / deque / "
+        "each exception, a random script of next() / take(k) / peek(k) in try/except (observed through the first read that meets the end: "
+        "the model's `untilEnd`; compared with the model's script and with `scriptOuts` of the spec's outcomes); opget: list(OpMethod.get(keys, "
+        "without)) for every documented key (symbol, name, dunder, operator function, 1/2/'1'/'2', 'r', 'all'), unknown keys, random "
+        "key / without lists in every accepted spelling (list, tuple, generator, bare, white-space separated string); bcastE: the math/dB/MIDI functions on scalar / list / tuple / deque / "
         "generator / map / filter / Stream / thub inputs, by position and by keyword, with elements in the middle on which the function raises "
         "(domain errors, None, str, negative factorial), invalid logarithm bases by position / keyword; meta: classes built with a user's "
         "subclass of AbstractOperatorOverloaderMeta (subsets of the three builders x __operators__ / __without__ queries x names bound in the body); "
@@ -72,7 +75,11 @@ TRUSTED = [
     "(every next() of an operator expression asks each leaf at most once)",
     "harness/props/c01_exc.py: the oracle table `bad` handed to the Lean model (entries exprE / bcastE) = the applications, among those the "
     "model itself asks about (`queried`), on which python's operator.* / the undecorated library function raises on the real elements; "
-    "settled by rounds and re-checked for consistency in every comparison; the three readers (next loop, restarted for loop, next/take script)",
+    "settled by rounds and re-checked for consistency in every comparison (that a table agreeing with python on the logged queries gives "
+    "python's run is PROVED: oracle_settled / oracle_settled_take / oracle_settled_script; that nothing logged is superfluous: "
+    "oracle_query_needed); the three readers (next loop, restarted for loop, next/take/peek script)",
+    "CPython fact the model of `peek` encodes (checked differentially): itertools.tee keeps the items one copy has read for the other "
+    "copy and passes an exception of the underlying iterator on WITHOUT keeping it",
     "harness/props/c01_exc.py stream_meth_kinds: ast recogniser that tells from lazy_stream.py whether Stream.__getattr__ / __call__ build "
     "their result on a generator expression or on a map object (parameter `g` of the model's `meth` node; unknown shape = broken obligation)",
     "independent oracle (c01_exc.scalar_function_checks, 538 calls) for the element functions lazy_math defines itself (log / ln / log10 / "
